@@ -36,8 +36,16 @@ def run(rep, progs, tier):
     rep.rule("C04.lossless-queue", "events are never handed over with a lossy send (try_send / broadcast / watch)")
     rep.rule("C04.cancel-safe", "no droppable future holds consumed input across a suspension")
     rep.trusted = ["rustc MIR construction and coroutine witness computation", "mpdfacts exporter", "tokio mpsc delivery and documented cancel safety of recv"]
+    rep.rule("C04.names", "imported from C20 (owner of the name tables): every Subsystem carries its protocol name — as_str / from_frame tables "
+             "complete, inverse, in the MPD vocabulary; and from C03: the field value reaches the event as captured")
     for cfg, prog in progs.items():
         one(rep, prog, cfg)
+        from .C03 import verbatim_rule
+        from .C20 import subsystem_rules
+        with rep.importing("C20.subsystem-tables", "C04.names.tables"):
+            subsystem_rules(rep, prog, cfg)
+        with rep.importing("C03.grammar", "C04.names.field"):
+            verbatim_rule(rep, prog, cfg)
 
 
 def one(rep, prog, cfg):
